@@ -82,13 +82,19 @@ Theorem truncation_never_eof_general : forall s mx mn s' d,
   exists l, In (IAlert l 0) (inq s).
 Proof. exact read_closes_only_on_close_notify. Qed.
 
-(* whenever a call raises, the connection is closed afterwards (states reachable from a fresh
-   connection satisfy inv, see inv_reachable) -- for read, write, close and the handshake calls.
-   _partial: for the public post-handshake calls send_keyupdate_request,
-   request_post_handshake_auth and write_heartbeat the statement is false, see
-   post_handshake_fault_contained_refuted. *)
-Theorem exception_closes_partial : forall s ev s' x, inv s -> ~ post_call ev -> step s ev = (s', OExc x) -> closed s' = true.
+(* whenever ANY call raises, in any state reachable from a fresh connection (inv, see
+   inv_reachable), the connection is closed afterwards -- read, write, close, the handshake
+   calls and (since /repo fa8f243; before that exception_closes_partial excluded them) the
+   public post-handshake calls send_keyupdate_request, request_post_handshake_auth,
+   write_heartbeat.  Only the caller errors those three raise before anything is sent
+   (XValue: ValueError / TLSIllegalParameterException / TLSInternalError) leave the state as it is. *)
+Theorem exception_closes : forall s ev s' x, inv s -> (post_call ev -> x <> XValue) ->
+  step s ev = (s', OExc x) -> closed s' = true.
 Proof. exact exc_closes. Qed.
+
+Theorem post_call_error_cases : forall s ev s' x, post_call ev -> step s ev = (s', OExc x) ->
+  (x = XValue /\ s' = s) \/ closed s' = true.
+Proof. exact post_call_exc. Qed.
 
 Theorem inv_reachable : forall a b c d n evs s' os, run (init a b c d n) evs = (s', os) -> inv s'.
 Proof. exact init_run_inv. Qed.
@@ -106,67 +112,43 @@ Theorem fault_in_write : forall s d e, closed s = false -> wq s = [] -> bufw s =
              sess s' = (if ign s then sess s else option_map (fun _ => false) (sess s)).
 Proof. exact write_fault. Qed.
 
-(* a transport failure exactly at a public post-handshake call.  KeyUpdate / post-handshake
-   CertificateRequest are handshake-type records: the code looks at the next incoming record.
-   When one is waiting the connection is closed (alert => TLSRemoteAlert, anything else => the
-   socket error); when none is waiting and the receive side has ended, the abrupt-close / socket
-   error of that read leaves with NOTHING having closed the connection (state unchanged).
-   _partial: the cases are exactly these; the full statement is refuted below. *)
-Theorem post_handshake_fault_contained_partial : forall s e,
+(* a transport failure exactly at a public post-handshake call (send_keyupdate_request,
+   request_post_handshake_auth, write_heartbeat), FULL: the send direction is dead and either a
+   record of the peer is waiting or the receive side has ended; the call raises the abrupt-close /
+   socket error -- or the peer's alert when one was waiting --, the connection is closed, the
+   session not resumable.
+   (Before /repo fa8f243 this was post_handshake_fault_contained_partial /
+   post_handshake_fault_contained_refuted: with nothing waiting the exception left with closed =
+   False and the session resumable; a failed heartbeat send never closed anything.) *)
+Theorem post_handshake_fault_contained : forall s e ev,
+  applicable ev s -> closed s = false -> wq s = [] -> bufw s = false -> tx_dead s e ->
+  (inq s <> [] \/ rxe s <> RxOpen) ->
+  exists s' x, step s ev = (s', OExc x) /\ closed s' = true /\
+    sess s' = option_map (fun _ => false) (sess s) /\
+    (fault_exn x \/ exists l d rest, inq s = IAlert l d :: rest /\ x = XRemote d).
+Proof. exact post_call_fault. Qed.
+
+(* half-open transport (only the send direction is dead, nothing has arrived): KeyUpdate and the
+   post-handshake CertificateRequest are handshake records, the code waits for the peer's next
+   record, which may be the alert explaining the failure *)
+Theorem post_handshake_fault_half_open : forall s e,
   closed s = false -> tls13 s = true -> wq s = [] -> bufw s = false -> tx_dead s e ->
-  match inq s with
-  | [] => match rxe s with
-          | RxOpen => step s UKeyUpdate = (s, OBlocked)
-          | RxEof => step s UKeyUpdate = (s, OExc XAbrupt)
-          | RxErr e' => step s UKeyUpdate = (s, OExc (XSock e'))
-          end
-  | IAlert l d :: _ =>
-      exists s', step s UKeyUpdate = (s', OExc (XRemote d)) /\ closed s' = true /\
-                 sess s' = option_map (fun _ => false) (sess s)
-  | _ :: _ =>
-      exists s', step s UKeyUpdate = (s', OExc (XSock e)) /\ closed s' = true /\
-                 sess s' = option_map (fun _ => false) (sess s)
-  end.
-Proof. exact keyupdate_fault. Qed.
+  inq s = [] -> rxe s = RxOpen -> step s UKeyUpdate = (s, OBlocked) /\ step s (UPha true) = (s, OBlocked).
+Proof. exact post_call_half_open. Qed.
 
-Theorem post_handshake_auth_fault_partial : forall s e,
-  closed s = false -> tls13 s = true -> wq s = [] -> bufw s = false -> tx_dead s e ->
-  match inq s with
-  | [] => match rxe s with
-          | RxOpen => step s (UPha true) = (s, OBlocked)
-          | RxEof => step s (UPha true) = (s, OExc XAbrupt)
-          | RxErr e' => step s (UPha true) = (s, OExc (XSock e'))
-          end
-  | IAlert l d :: _ =>
-      exists s', step s (UPha true) = (s', OExc (XRemote d)) /\ closed s' = true /\
-                 sess s' = option_map (fun _ => false) (sess s)
-  | _ :: _ =>
-      exists s', step s (UPha true) = (s', OExc (XSock e)) /\ closed s' = true /\
-                 sess s' = option_map (fun _ => false) (sess s)
-  end.
-Proof. exact pha_fault. Qed.
+(* the former witnesses: handshake, the transport dies, the call raises -- closed, session off,
+   the next write gets the closed-connection error *)
+Theorem post_handshake_fault_history_keyupdate :
+  let '(s', os) := run (init false true true false 16384) (post_fault_script UKeyUpdate) in
+  os = [OStep; OStep; ONone; OStep; OStep; OHsDone; ONone; ONone; OExc XAbrupt; OExc XClosed] /\
+  closed s' = true /\ sess s' = Some false.
+Proof. exact keyupdate_fault_history. Qed.
 
-(* a heartbeat request that cannot be sent: socket.error, and the state is untouched *)
-Theorem heartbeat_fault_partial : forall s e, closed s = false -> bufw s = false -> tx_dead s e ->
-  step s (UHeartbeat true) = (s, OExc (XSock e)).
-Proof. exact heartbeat_fault. Qed.
-
-(* "a transport failure at a public post-handshake call closes the connection" is false of the
-   faithful model (finding 3) *)
-Theorem post_handshake_fault_contained_refuted : ~ post_handshake_fault_contained_full.
-Proof. exact post_handshake_fault_contained_not_full. Qed.
-
-(* the witnesses as histories from a fresh connection: handshake, the transport dies, the call
-   raises -- closed is still False and the session still resumable; only the next write notices *)
-Theorem post_handshake_fault_refuted_history_keyupdate :
-  let '(s', os) := run (init false true true false 16384) (firstn 9 (post_fault_script UKeyUpdate)) in
-  nth 8 os ONone = OExc XAbrupt /\ closed s' = false /\ sess s' = Some true.
-Proof. exact keyupdate_fault_history_open. Qed.
-
-Theorem post_handshake_fault_refuted_history_heartbeat :
-  let '(s', os) := run (init false true false false 16384) (firstn 9 (post_fault_script (UHeartbeat true))) in
-  nth 8 os ONone = OExc (XSock 32) /\ closed s' = false /\ sess s' = Some true.
-Proof. exact heartbeat_fault_history_open. Qed.
+Theorem post_handshake_fault_history_heartbeat :
+  let '(s', os) := run (init false true false false 16384) (post_fault_script (UHeartbeat true)) in
+  os = [OStep; OStep; ONone; OStep; OStep; OHsDone; ONone; ONone; OExc (XSock 32); OExc XClosed] /\
+  closed s' = true /\ sess s' = Some false.
+Proof. exact heartbeat_fault_history. Qed.
 
 (* transport faults at a step of a handshake: the call raises the abrupt-close or a socket
    error, the handshake is over, the connection closed, the session not resumable *)
